@@ -1,11 +1,12 @@
 #!/bin/bash
 # tools/mutant.sh <patch.diff> <ID> [<ID>...]   - apply a patch to a scratch worktree of /repo and run checks against it
-# (never touches /repo). Prints one line per check: <ID> exit=<code>.
+# (never touches /repo). MUT_BASE=<commit>: start the scratch worktree from that commit instead of HEAD (stored seeds name the
+# commit they apply to in meta.json `applies_to`). Prints one line per check: <ID> exit=<code>.
 set -u
 PATCH=$(readlink -f "$1"); shift
 WT=$(mktemp -d /tmp/mut-XXXXXX)
 rmdir "$WT"
-git -C /repo worktree add -q --detach "$WT" HEAD || exit 2
+git -C /repo worktree add -q --detach "$WT" "${MUT_BASE:-HEAD}" || exit 2
 BEFORE=$(ls -d /verif/work/e2-* 2>/dev/null | sort)
 cleanup() {
   git -C /repo worktree remove --force "$WT" 2>/dev/null; rm -rf "$WT"
